@@ -60,6 +60,10 @@ func (p *pattern) Match(path []string) bool {
 		// skip empty
 		if pattern[0] == "" {
 			pattern = pattern[1:]
+			// a pattern ending in "/" (e.g. "foo/") leaves nothing to match
+			if len(pattern) == 0 {
+				return false
+			}
 		}
 
 		// eat doublestar
